@@ -91,6 +91,7 @@ type Exec struct {
 	engineErrors []string
 	nondetEnv    int
 	lazyRun      int
+	vtime        int64 // virtual time for timer ordering
 	strFacts     map[*Term]*strFact
 }
 
